@@ -105,24 +105,32 @@ def run(ctx):
         elif got[:1] != [("Character", ord(ch))]:
             ctx.report("C16-token-tables", "Character/read", "the character %r is printed as %r, which reads as %s" % (ch, t, got), where_of(vf))
     # numbers: Integer = the integer alone, Rational = numerator `/` denominator (that order), each read back as that class
-    for label, v, text_want, fillv, want_tok in (
-            ("Integer", m_.number("Integer", printtables.Tok("n")), None, ["42"], [("Integer", 42)]),
-            ("Rational", m_.number("Rational", printtables.Tok("n"), printtables.Tok("d")), None, ["7", "9"], [("Rational", (7, 9))])):
+    # (the holes are std's Display of an i32 / u32: every text -?[0-9]+ in range; rows: a small value and the ends of the range)
+    I, Rt = (lambda: m_.number("Integer", printtables.Tok("n"))), (lambda: m_.number("Rational", printtables.Tok("n"), printtables.Tok("d")))
+    num_rows = [("Integer", I(), ["42"], [("Integer", 42)]), ("Rational", Rt(), ["7", "9"], [("Rational", (7, 9))])]
+    for txt_n in ("0", "-1", "2147483647", "-2147483648", "-2147483647"):
+        num_rows.append(("Integer/%s" % txt_n, I(), [txt_n], [("Integer", int(txt_n))]))
+    for txt_n, txt_d in (("-7", "9"), ("2147483647", "2"), ("-2147483648", "3"), ("1", "4294967295"), ("-2147483647", "2147483647")):
+        num_rows.append(("Rational/%s/%s" % (txt_n, txt_d), Rt(), [txt_n, txt_d], [("Rational", (int(txt_n), int(txt_d)))]))
+    for label, v, fillv, want_tok in num_rows:
         t = printtables.print_value(fb, v)
         key = "print-read/%s" % label
         if isinstance(t, tuple):
             ctx.undecided("C16-token-tables", key, "cannot follow the printer (%s)" % t[1], where_of(nf))
             continue
         txt, holes = printtables.fill(t, atom=lambda i, h: fillv[i] if i < len(fillv) else "0")
-        order_ok = [getattr(h.value, "tag", None) for h in holes] == (["n"] if label == "Integer" else ["n", "d"])
+        order_ok = [getattr(h.value, "tag", None) for h in holes] == (["n"] if label.startswith("Integer") else ["n", "d"])
         toks = lexrun.lex(fb, txt + " ")
         got = [(k, pl) for k, pl, *_ in toks]
         ctx.inst("C16-token-tables", key, {"printed": repr(t), "read_as": got})
         if toks and toks[-1][0] == "stuck":
             ctx.undecided("C16-token-tables", key, "cannot follow the lexer on %r" % txt, where_of(nf))
         elif got != want_tok or not order_ok:
-            ctx.report("C16-token-tables", key, "%s numbers are printed as %r (payload order %s), read back as %s" % (
-                label, t, [getattr(h.value, "tag", None) for h in holes], got), where_of(nf))
+            ctx.oblige(False)
+            ctx.report("C16-token-tables", key, "%s numbers are printed as %r (payload order %s): %r is read back as %s, expected %s" % (
+                label.split("/")[0], t, [getattr(h.value, "tag", None) for h in holes], txt, got, want_tok), where_of(nf))
+        else:
+            ctx.oblige(True)
     def _old_tables():
         vfmt = variant_formats(fb, vf, "values::Value", {"Boolean": [False, True]})
 
